@@ -332,4 +332,133 @@ theorem remove_ok (p : List String) :
         obtain ⟨c', hc⟩ := ih c (by simp) hch
         simp only [remove, hl, hc, bind, Except.bind, pure, Except.pure]
         split <;> exact ⟨_, rfl⟩
+/-! ### `ensure` with an empty mapping, `resolve?`, and the repair step `clearNonMapping` -/
+
+/-- setting `{}` at `p` leaves no leaf at or below `p` -/
+theorem ensure_empty_leaf (p : List String) :
+    ∀ (b b' : J), ensure b p (.obj []) = .ok b' → ∀ q, leafAt b' q = delA (leafAt b) p q := by
+  induction p with
+  | nil => intro b b' h; cases b <;> simp [ensure] at h
+  | cons k ks ih =>
+    intro b b' h q
+    cases b with
+    | obj kvs =>
+      cases ks with
+      | nil =>
+        simp [ensure] at h
+        subst h
+        cases q with
+        | nil => simp [delA, leafAt]
+        | cons k' qs =>
+          by_cases e : k = k'
+          · subst e
+            simp [delA, leafAt_obj_cons, lookup_insert_same, leafAt_empty]
+          · have e' : k' ≠ k := fun x => e x.symm
+            simp [delA, leafAt_obj_cons, lookup_insert_other _ _ _ _ e', pre_cons_cons, e]
+      | cons k2 ks2 =>
+        rw [ensure_cons2] at h
+        cases hc : ensure ((lookup k kvs).getD (.obj [])) (k2 :: ks2) (.obj []) with
+        | error e => simp [hc, Except.map] at h
+        | ok c' =>
+          simp [hc, Except.map] at h
+          subst h
+          have ihc := ih _ _ hc
+          cases q with
+          | nil => simp [delA, leafAt]
+          | cons k' qs =>
+            by_cases e : k = k'
+            · subst e
+              simp only [leafAt_obj_cons, lookup_insert_same, ihc qs, delA, pre_cons_same]
+              cases hl : lookup k kvs with
+              | none => simp [leafAt_empty]
+              | some c => simp
+            · have e' : k' ≠ k := fun x => e x.symm
+              simp [delA, leafAt_obj_cons, lookup_insert_other _ _ _ _ e', pre_cons_cons, e]
+    | _ => simp [ensure] at h
+
+theorem resolve_some_leaf (P : List String) :
+    ∀ (b t : J), resolve? b P = some t → leafAt b P = if t.isObj then none else some t := by
+  induction P with
+  | nil =>
+    intro b t h
+    simp [resolve?] at h
+    subst h
+    cases b <;> simp [leafAt, isObj]
+  | cons k ks ih =>
+    intro b t h
+    cases b with
+    | obj kvs =>
+      rw [leafAt_obj_cons]
+      cases hl : lookup k kvs with
+      | none => simp [resolve?, hl] at h
+      | some v => simp only [resolve?, hl] at h; simpa using ih v t h
+    | _ => simp [resolve?] at h
+
+theorem resolve_none_leaf (P : List String) :
+    ∀ (b : J), resolve? b P = none → leafAt b P = none := by
+  induction P with
+  | nil => intro b h; simp [resolve?] at h
+  | cons k ks ih =>
+    intro b h
+    cases b with
+    | obj kvs =>
+      rw [leafAt_obj_cons]
+      cases hl : lookup k kvs with
+      | none => rfl
+      | some v => simp only [resolve?, hl] at h; simpa using ih v h
+    | _ => simp [leafAt]
+
+theorem pre_antisymm (p q : List String) (h1 : pre p q = true) (h2 : pre q p = true) : p = q := by
+  induction p generalizing q with
+  | nil => cases q with
+    | nil => rfl
+    | cons b q => simp at h2
+  | cons a p ih =>
+    cases q with
+    | nil => simp at h1
+    | cons b q =>
+      simp only [pre_cons_cons] at h1 h2
+      by_cases e : a = b
+      · subst e
+        simp only [if_true] at h1 h2
+        rw [ih q h1 h2]
+      · simp [e] at h1
+
+/-- the repair step on leaf functions: a leaf sitting at `P` is wiped, nothing else changes -/
+def clrA (M : LeafMap) (P : List String) : LeafMap :=
+  fun q => if (M P).isSome && pre P q then none else M q
+
+theorem clearNonMapping_nonobj (b : J) (P : List String) (t : J) (hr : resolve? b P = some t)
+    (ho : t.isObj = false) : clearNonMapping b P = ensure b P (.obj []) := by
+  unfold clearNonMapping
+  rw [hr]
+  cases t with
+  | obj _ => simp [isObj] at ho
+  | _ => rfl
+
+theorem clearNonMapping_sem (b : J) (P : List String) (hP : P ≠ [] ∨ b.isObj = true)
+    (hA : NoLeafAbove (leafAt b) P) :
+    ∃ b1, clearNonMapping b P = .ok b1 ∧ leafAt b1 = clrA (leafAt b) P := by
+  cases hr : resolve? b P with
+  | none =>
+    refine ⟨b, by simp [clearNonMapping, hr], ?_⟩
+    funext q; simp [clrA, resolve_none_leaf P b hr]
+  | some t =>
+    have hl := resolve_some_leaf P b t hr
+    by_cases ho : t.isObj = true
+    · have : ∃ kvs, t = .obj kvs := by cases t <;> simp [isObj] at ho; exact ⟨_, rfl⟩
+      obtain ⟨kvs, rfl⟩ := this
+      refine ⟨b, by simp [clearNonMapping, hr], ?_⟩
+      funext q; simp [clrA, hl, isObj]
+    · have ho' : t.isObj = false := by simpa using ho
+      have hne : P ≠ [] := by
+        rcases hP with hP | hP
+        · exact hP
+        · intro e; subst e
+          simp [resolve?] at hr; subst hr; rw [hP] at ho'; exact absurd ho' (by simp)
+      obtain ⟨b1, h1⟩ := ensure_ok (.obj []) P b hne hA
+      have hs := ensure_empty_leaf P b b1 h1
+      refine ⟨b1, by rw [clearNonMapping_nonobj b P t hr ho']; exact h1, ?_⟩
+      funext q; rw [hs q]; simp [clrA, delA, hl, ho']
+
 end Kopf.C18
